@@ -63,6 +63,7 @@ def list_ops(defs, locs, rich=False):
             ops.append(("isubref", t, p))
         if t in defs:
             ops.append(("unreg", t))
+            ops.append(("same", t))
     c = None
     # replacing a whole container is allowed when none of its members is defined
     for cont, members in (("l", ["l0", "l1"]),):
@@ -85,6 +86,7 @@ def list_ops_reduced(defs, locs):
                 ops.append(("expr", t, dsc))
         if t in defs:
             ops.append(("unreg", t))
+            ops.append(("same", t))
     return ops
 
 
@@ -143,6 +145,14 @@ class State:
             del self.defs[t]
             self.last[t] = U.getval(d, t)
             ex.notes["unregister"] = ex.notes.get("unregister", 0) + 1
+        elif kind == "same":
+            # freeze idiom: the location is assigned the very object it currently holds
+            t = op[1]
+            v = U.getval(d, t)
+            U.assign(r, t, v)
+            del self.defs[t]
+            self.last[t] = v
+            ex.notes["freeze_same_object"] = ex.notes.get("freeze_same_object", 0) + 1
         elif kind == "replace":
             v0, v1 = self.fresh(), self.fresh()
             r["l"] = [v0, v1]
@@ -196,6 +206,8 @@ def _show_op(op):
         return f"{op[1]} -= ref({op[2]})"
     if op[0] == "unreg":
         return f"unregister({op[1]})"
+    if op[0] == "same":
+        return f"{op[1]} = <the object it holds>"
     return f"{op[0]} {op[1]}"
 
 
